@@ -22,7 +22,7 @@ ORACLE_NEEDS_JUDGE = True
 TIMEOUT = 900
 MANIFEST = {
     "level_text": "Kernel-checked refinement: for EVERY supervisor option list (strategy, per-type directives, any-error, retry budget/window, backoff), every family size and every script of failures (6 error kinds), pings, reinstatements and aged fault stamps, each step of the model of notifyParent/handlePanicking/handleStop-/handleRestartDirective/recordFault/suspendGroup/restartSubtree produces exactly the outcome the property text prescribes (run_refines_code, step_refines_code), with the configured directive proved equal to the text's lookup (lookup_eq_spec: any-error sole rule, else last rule for the type, else constructor default, else suspend) and the fault counter proved equal to the count of consecutive faults within the window over the fault history (cf_eq_specCount). The text is FALSE of the current code in one clause, proved with a witness replayed on the real code: Escalate delivers the PanicSignal to the parent's own Receive, not the grandparent (C07-F1): C07_refuted, C07_partial (text holds on every step whose configured directive is not Escalate). A second deviation found by this check (restart count of a sibling restarted while running reset to 1) was repaired in /repo by fix 6e40710; the model and the full restart clause now hold (C07_sibling_restart_count_bumped). The model is tied to the code by a differential run on a real actor system (same scripts, equal observations incl. events stream), and the theorem's oracle judgeRun is evaluated on the implementation's observations.",
-    "level_note": "Model scope: one parent with <= 4 leaf children sharing one option list, grandparent as recorder; PreStart failures inside a restart are modelled and tied (op F, init's 5 tries, the restart retrier, the final shutdown) but lie outside the refinement theorems (validOps excludes F; finding C07-F3, found there, was repaired by fix 07658af and is now the regression theorem C07_retried_restart_keeps_parent); PostStop never fails; no faults arriving during a restart; remote actors, passivation and backoff sleep lengths not modelled. Trusted: harness quiescence detection (conditions, not sleeps); windows restricted to <=0, 1ns, 1h so wall-clock never decides (expiry forced by an in-package `age` accessor); a death-watch/re-add race of the code outside C07 is pinned to its usual order by the test actor's PreStart; go2lean not used (recordFault has an if-with-init and atomics), the tie is the differential.",
+    "level_note": "Model scope: one parent with <= 4 leaf children sharing one option list, grandparent as recorder; PreStart failures inside a restart are modelled and tied (op F, init's 5 tries, the restart retrier, the final shutdown) but lie outside the refinement theorems (validOps excludes F; finding C07-F3, found there, was repaired by fix 07658af and is now the regression theorem C07_retried_restart_keeps_parent); the public PID.Restart on a child (op R) is modelled, tied and judged by the restart clause, also outside validOps; PostStop never fails; no faults arriving during a restart; remote actors, passivation and backoff sleep lengths not modelled. Trusted: harness quiescence detection (conditions, not sleeps); windows restricted to <=0, 1ns, 1h so wall-clock never decides (expiry forced by an in-package `age` accessor); a death-watch/re-add race of the code outside C07 is pinned to its usual order by the test actor's PreStart; go2lean not used (recordFault has an if-with-init and atomics), the tie is the differential.",
     "technique": "Lean 4 refinement proof (model of the supervision path vs. the property text as an oracle over observations, for all option lists and all op sequences) + differential run of a real actor system against the model",
 }
 TRUSTED = [
@@ -31,7 +31,7 @@ TRUSTED = [
 ]
 RULE = ("families of 1-3 children under one parent and a grandparent; option lists over strategy x directive rules for 4 error types x 5 directive values "
         "(incl. one outside the enum) x any-error x retry budgets {0,1,2} x windows {-1,0,1ns,1h} x backoff; scripts of <= 6 ops "
-        "(fail with 6 error kinds, ping, reinstate, age) biased to failures; non-trivial = at least one failure was acted on; distinct by (case, output)")
+        "(fail with 6 error kinds, public Restart, ping, reinstate, age) biased to failures; non-trivial = at least one failure was acted on; distinct by (case, output)")
 
 KINDS = "ABPN"
 FKINDS = "ABPQND"
@@ -76,6 +76,8 @@ def gen_ops(rng, n, opts, maxlen):
                 pool = ks
             k = rng.choice(pool)
             ops.append(f"f{i}{k}")
+        elif r < 0.66:
+            ops.append(f"R{i}")
         elif r < 0.78:
             ops.append(f"p{i}")
         elif r < 0.9:
